@@ -133,6 +133,7 @@ func c32Memory(t *rapid.T) (memory.Memory, map[uint64]byte, string) {
 func model2addr(a uint64) model.Addr { return model.Addr(a) }
 
 func TestC32(t *testing.T) {
+	runWitnesses(t, "C32")
 	col := ev.New("C32", "rapid: memories (Sparse, Bytes, Overlay) holding 0-8 constant stores of 1-24 (a sixth: 25-124) bytes in a 191-byte "+
 		"region placed at 0, 0x7ff0, 0x10000 and 2^64-192 (stores starting/ending on 16-byte row boundaries, two blocks in "+
 		"one row, adjacent rows, far rows); the memory view is reached through the real UI (entrypoint, emulate, memory "+
